@@ -1,5 +1,118 @@
 // C06 a wrong key is always rejected and yields no plaintext.
 #include "../tamper.h"
+#include "../spawn.h"
+#include <sys/stat.h>
+
+// The program a user runs: the key travels as base64 text through the option parser and the decoder before it
+// reaches the kernel. A file is written by `Wencry -e -k <key>`; `-v` and `-d` with the text of every one-bit
+// neighbour of the key (and of a few other wrong keys) must exit non-zero and leave no plaintext behind.
+static Verdict run_c06_cli(const Case &c)
+{
+  Verdict v;
+  const char *b1 = getenv("WENCRY_CLI");
+  if (!b1)
+  {
+    Verdict f = Verdict::fail("WENCRY_CLI not set");
+    f.infra = true;
+    return f;
+  }
+  const char *sroot = getenv("VERIF_SCRATCH");
+  std::string root = sroot ? sroot : "/verif/.scratch";
+  mkdir(root.c_str(), 0755);
+  static uint64_t seq = 0;
+  std::string dir = root + "/c06-" + std::to_string(getpid()) + "-" + std::to_string(seq++);
+  mkdir(dir.c_str(), 0755);
+  struct Cleaner
+  {
+    std::string d;
+    ~Cleaner() { rm_rf(d); }
+  } cleaner{dir};
+  int cm = (int)c.geti("cmode", 1), hm = (int)c.geti("hmode", 0);
+  bytes P = expand((uint64_t)strtoull(c.get("pseed", "1").c_str(), NULL, 10), (size_t)c.geti("plen", 55), 0);
+  bytes key = c.getb("key");
+  key.resize(16);
+  write_file(dir + "/in.bin", std::string(P.begin(), P.end()));
+  std::string ks = ref::b64_encode(key.data(), 16);
+  v.nontrivial = true;
+  v.classes.push_back("kind=cli");
+  v.classes.push_back("hmode" + std::to_string(hm));
+  auto bad = [&](const std::string &m) {
+    Verdict f = Verdict::fail("production binary, cmode " + std::to_string(cm) + ", hmode " + std::to_string(hm) + ", file written with -k " + ks + ": " + m);
+    f.nontrivial = true;
+    f.classes = v.classes;
+    return f;
+  };
+  RunRes r1 = spawn(b1, {"-e", "-i", "in.bin", "-o", "f.wenc", "-k", ks, "--cmode", std::to_string(cm), "--hmode", std::to_string(hm), "-n"}, dir);
+  if (r1.timed_out || r1.signaled || r1.code != 0)
+  {
+    v.classes.push_back("cli_encryption_failed(not_judged_here)");
+    v.nontrivial = false;
+    return v;
+  }
+  {
+    // what was written must be a file under `key` (otherwise "wrong key" means something else than we think)
+    std::string of = read_file(dir + "/f.wenc");
+    ref::Parsed pr = ref::parse_file(bytes(of.begin(), of.end()), key, 4, 1u << 24);
+    if (pr.status != 0)
+    {
+      v.classes.push_back("cli_file_not_authentic_under_the_given_key(not_judged_here)");
+      v.nontrivial = false;
+      return v;
+    }
+  }
+  std::vector<std::pair<std::string, bytes>> wrong;
+  for (int bit = 0; bit < 128; bit++)
+  {
+    bytes k = key;
+    k[bit / 8] ^= (uint8_t)(1 << (bit % 8));
+    wrong.push_back({"key bit " + std::to_string(bit) + " flipped", k});
+  }
+  {
+    bytes k = key;
+    k[15] ^= 3;
+    wrong.push_back({"the two lowest bits of the last key byte flipped", k});
+    k = key;
+    std::reverse(k.begin(), k.end());
+    if (k != key)
+      wrong.push_back({"key bytes reversed", k});
+    wrong.push_back({"all-zero key", bytes(16, 0)});
+    if (key == bytes(16, 0))
+      wrong.pop_back();
+  }
+  size_t n = 0;
+  for (auto &w : wrong)
+  {
+    std::string ws = ref::b64_encode(w.second.data(), 16);
+    for (const char *op : {"-v", "-d"})
+    {
+      bool dec = op[1] == 'd';
+      unlink((dir + "/dec.out").c_str());
+      std::vector<std::string> av = {op, "-i", "f.wenc", "-k", ws, "-n"};
+      if (dec)
+      {
+        av.push_back("-o");
+        av.push_back("dec.out");
+      }
+      RunRes r = spawn(b1, av, dir);
+      if (r.timed_out)
+        continue;
+      n++;
+      if (r.signaled)
+        return bad(std::string(op) + " with a wrong key (" + w.first + ", -k " + ws + ") was killed by signal " + std::to_string(r.sig));
+      if (r.code == 0)
+        return bad(std::string(op) + " with a wrong key (" + w.first + ", -k " + ws + ") exits 0");
+      if (dec)
+      {
+        struct stat st;
+        if (stat((dir + "/dec.out").c_str(), &st) == 0 && st.st_size > 0)
+          return bad("-d with a wrong key (" + w.first + ", -k " + ws + ") left " + std::to_string((long)st.st_size) + " bytes in its output file");
+      }
+      v.more_distinct.push_back(fnv64(ks + ws + op));
+    }
+  }
+  v.weight = n;
+  return v;
+}
 
 // error paths: every allocation made while verifying / decrypting with a wrong key fails in turn. Whatever the
 // code does about it (exception, abort, error return), it must not accept the key or write plaintext.
@@ -100,6 +213,8 @@ static Verdict run_c06_rderr(const Case &c, const EncCase &e, const bytes &base)
 
 static Verdict run_c06(const Case &c)
 {
+  if (c.get("kind", "one") == "cli")
+    return run_c06_cli(c);
   Verdict v;
   EncCase e = enc_from(c);
   bytes base = ref::encrypt_file(e.P, fparams(e));
@@ -244,6 +359,30 @@ static void fixed_c06(Ctx &ctx)
 {
   const Prop *p = find_prop("C06");
   uint64_t i = 0;
+  if (ctx.mode == "cli")
+  {
+    for (int rep = 0; rep < (ctx.thorough() ? 8 : 1); rep++)
+      for (int cm = 0; cm < 5; cm++)
+        for (int hm = 0; hm < 3; hm++)
+        {
+          if (!mine(ctx, i++))
+            continue;
+          Case c;
+          c.set("kind", "cli");
+          c.seti("plen", 40 + 7 * cm + hm);
+          c.set("pseed", std::to_string(ctx.seed * 100 + (uint64_t)(rep * 15 + cm * 3 + hm)));
+          // keys whose last byte has every combination of the two lowest bits, a zero byte, high bytes
+          bytes key = expand(ctx.seed * 31 + (uint64_t)(rep * 15 + cm * 3 + hm), 16, 0);
+          key[15] = (uint8_t)((key[15] & 0xfc) | ((cm + hm + rep) & 3));
+          if ((cm + rep) % 4 == 3)
+            key[(size_t)hm] = 0;
+          c.setb("key", key);
+          c.seti("cmode", cm);
+          c.seti("hmode", hm);
+          eval_fixed(*p, ctx, c);
+        }
+    return;
+  }
   for (int cm = 0; cm < 5; cm++)
     for (int hm = 0; hm < 3; hm++)
     {
